@@ -4,6 +4,7 @@ from __future__ import annotations
 import re
 
 import hashlib
+import io
 import os
 import struct
 import sys
@@ -110,6 +111,20 @@ def run(case: dict, ctx) -> dict:
                         key_info="".join(rng.choice("0123456789abcdef-") for _ in range(rng.randrange(1, 40))))
     o = call(_decrypt, raw, key, aad)
     cnt["roundtrips"] = 1
+    if o.ok and case["i"] % 2 == 0:
+        # one Envelope object, several calls: a rejected attempt (wrong associated data / key) first, then the right one, twice
+        from dissect.hypervisor.util.envelope import Envelope
+
+        env_ = Envelope(io.BytesIO(raw))
+        call(env_.decrypt, key, aad=(aad or b"") + b"x")
+        call(env_.decrypt, bytes(32))
+        for nth in (1, 2):
+            o_n = call(env_.decrypt, key, aad=aad)
+            cnt["same_object_decrypts"] = cnt.get("same_object_decrypts", 0) + 1
+            if not o_n.ok or o_n.value != payload:
+                res["viol"].append({"what": f"decrypt #{nth} on an Envelope object that was used before does not return the payload", "mech": MECH,
+                                    "detail": {"outcome": o_n.brief(), "got_len": len(o_n.value) if o_n.ok else None, "payload_len": plen}})
+                break
     if not o.ok:
         res["viol"].append({"what": f"decrypt of a well-formed envelope failed: {o.brief()}", "mech": MECH,
                             "detail": {"payload_len": plen, "padding": padding, "attrs": [(n, t) for n, t, _, _ in extra], "aad_len": None if aad is None else len(aad), "tb": o.tb}})
